@@ -260,8 +260,12 @@ func (c *Compiled) Size() int64 {
 // Clone creates a new copy of Compiled. Cloned copies are safe for concurrent
 // use by multiple goroutines.
 func (c *Compiled) Clone() *Compiled {
-	c.lock.RLock()
-	defer c.lock.RUnlock()
+	c.lock.Lock()
+	defer c.lock.Unlock()
+
+	// from now on the bytecode and the global indexes are shared with the
+	// clone: ReplaceBuiltinModule on either object must copy them first
+	c.fullClone = false
 
 	clone := &Compiled{
 		globalIndexes: c.globalIndexes,
